@@ -13,7 +13,7 @@ use crate::storage::lua_engine::{get_lua_engine, LuaCommandContext};
 
 /// Process KEYS and ARGV from RESP frames
 fn process_keys_and_args(parts: &[RespFrame], start_idx: usize, num_keys: usize) -> std::result::Result<(Vec<Vec<u8>>, Vec<Vec<u8>>), String> {
-    if parts.len() < start_idx + num_keys {
+    if num_keys > parts.len().saturating_sub(start_idx) {
         return Err("wrong number of arguments".to_string());
     }
     
